@@ -66,6 +66,19 @@ fn gen_value(tape: &mut Tape, depth: usize) -> Json {
     }
 }
 
+/// the value together with a string whose content is the value's own rendering (`{}` or `{:?}` form),
+/// as a tuple or an array, either way round
+fn beside_its_text(value: &Json, how: usize) -> Json {
+    let var = lit::to_var(value);
+    let text = run::guarded(|| if how % 2 == 0 { format!("{var}") } else { format!("{var:?}") }).unwrap_or_default();
+    match how {
+        0 | 1 => lit::tuple(vec![json!(text), value.clone()]),
+        2 | 3 => lit::tuple(vec![value.clone(), json!(text)]),
+        4 => json!([json!(text), value.clone(), json!(text)]),
+        _ => lit::tuple(vec![json!([value.clone()]), json!([json!(text)])]),
+    }
+}
+
 fn has_boundary(v: &Json) -> bool {
     match v {
         Json::Number(n) => {
@@ -134,7 +147,12 @@ impl Property for C20Prop {
         }
         // one value in six is nested deeper than the five levels below which the renderer once elided
         let depth = if tape.chance(1, 6) { 5 + tape.below(5) } else { tape.below(5) };
-        Some(json!({"kind": "value", "value": gen_value(tape, depth)}))
+        let value = gen_value(tape, depth);
+        if tape.chance(1, 5) {
+            // a string spelled like the rendering of its neighbour (the text of a value is not the value)
+            return Some(json!({"kind": "value", "value": beside_its_text(&value, tape.below(6))}));
+        }
+        Some(json!({"kind": "value", "value": value}))
     }
 
     fn check_case(&self, case: &Json, stats: &mut Stats) -> Verdict {
@@ -142,6 +160,24 @@ impl Property for C20Prop {
             "value" => check_value(&case["value"], stats),
             "int-literal" => check_int_literal(case, stats),
             "repl" => check_repl_binary(case, stats),
+            "typed-empty-probe" => {
+                stats.eval();
+                for program in ["[5; 0]", "[1][1:]", "[1.5]~ ? int $]"] {
+                    if let Outcome::Value(v) = run::run_text(program, false) {
+                        let printed = format!("{v:?}");
+                        if let Ok(Ok(back)) = run::guarded(|| Variable::from_str(&printed)) {
+                            let (t1, t2) = (Ty::from_real(&v.as_type()), Ty::from_real(&back.as_type()));
+                            if t1 != t2 {
+                                return fail(
+                                    "C20:probe:typed-empty-array-reads-back-untyped",
+                                    format!("`{program}` is an empty array of type {}; it prints as `{printed}`, which reads back as a value of type {}", t1.print(), t2.print()),
+                                );
+                            }
+                        }
+                    }
+                }
+                Verdict::Pass
+            }
             _ => Verdict::Discard("unknown kind"),
         }
     }
@@ -442,6 +478,14 @@ pub fn run(session: &Session) -> i32 {
             }
         }
     }
+    // a string spelled like the rendering of its neighbour, for a few values of every kind
+    for v in [json!([1, 2]), json!([]), json!([[1], [2, 3]]), lit::tuple(vec![json!(1), json!("a")]), json!(true), Json::Null, lit::float(1.5), json!(7), json!("s"), json!(["a", "b"]), json!([[]])] {
+        for how in 0..6 {
+            cases.push(json!({"kind": "value", "value": beside_its_text(&v, how)}));
+        }
+    }
+    // recorded finding: an empty array keeps the element type it was made with, its text `[]` does not
+    cases.push(json!({"kind": "typed-empty-probe"}));
     // big values: the rendering of a value is a literal however many leaves it has
     for n in [100usize, 400, 1000, 3000] {
         cases.push(json!({"kind": "value", "value": (0..n as i64).map(|k| json!(k * 37 - 50)).collect::<Vec<Json>>()}));
